@@ -50,8 +50,38 @@ def inline_all(ctx, only=None, exclude=()):
     return pol
 
 
-def mk_interp(ctx, inline=None, **kw):
-    return Interp(ctx.repo, ctx.types, ctx.eff, inline=inline, **kw)
+def is_private_helper(callee):
+    n = callee.name
+    return n.startswith("_") and not (n.startswith("__") and n.endswith("__"))
+
+
+def same_class_helpers(cls):
+    """Inline policy: private helpers of `cls` (a method split into pieces stays one unit of analysis)."""
+    def pol(call, callee, depth):
+        return callee.cls == cls and is_private_helper(callee)
+    return pol
+
+
+def mk_interp(ctx, inline=None, auto_helpers=True, **kw):
+    """`auto_helpers`: besides what `inline` accepts, a private helper of the *caller's own class* (or a private function of the
+    caller's module) is followed -- a method that was split into private pieces stays one unit of analysis.  Rules that enumerate
+    the paths of a large function (the step loop, the allocator) opt out and name what they follow."""
+    user = inline
+
+    def pol(call, callee, depth):
+        if user is not None and user(call, callee, depth):
+            return True
+        if not auto_helpers or not is_private_helper(callee):
+            return False
+        caller = getattr(pol, "caller", None)
+        if caller is None:
+            return False
+        if callee.cls is not None:
+            return callee.cls == caller.cls
+        return callee.module is caller.module
+    I = Interp(ctx.repo, ctx.types, ctx.eff, inline=pol, **kw)
+    I._policy = pol
+    return I
 
 
 def events(trace, kind=None, into_loops=True):
